@@ -452,6 +452,18 @@ def discharge(ctx, s, scope=None):
     r_ = _index_walk_discharge(kind, ops)
     if r_ is not None:
         return r_
+    if kind == 'index' and len(ops) >= 2:
+        # x[cursor .. min(cursor + C, len(y))] inside the loop `while cursor < len(y)` whose cursor is set to that bound each time:
+        # cursor <= end <= len(y), and len(x) == len(y) (same collection, or a dominating guard)
+        from bpsa.terms import window_of, _same_collection, _equal_length
+        r0 = _strip(ops[1])
+        w = window_of(r0, ctx.eng) if r0.tag == 'range' else None
+        if w is not None:
+            Y, C = w
+            inside = any(getattr(lp, 'window', None) is not None and lp.window[0] is r0[1] for lp in ctx.enclosing_loops(body, bb))
+            same = _same_collection(Y, ops[0]) or _equal_length(lambda: ctx.eng.len_equalities(body, bb), Y, ops[0])
+            if inside and same:
+                return 'window of the loop cursor (%s elements at a time) over a collection as long as %s' % (canon(C), canon(Y)[:40])
     if kind == 'assert:overflow:Sub' and len(ops) == 2 and _const_int(_strip(ops[1])) == 1:
         # len(X) - 1 inside a loop that walks X by index: the body runs only when X is non-empty
         from bpsa.terms import index_view, _view_component
